@@ -21,5 +21,12 @@ def run(ctx):
     ctx.guard(add_guard_rule, ctx, "C15.add-guard")
     ctx.guard(ctor_rule, ctx, "C15.ctor")
     ctx.guard(getitem_rule, ctx, "C15.getitem")
+    from ..rules_ast import topology_gate_rule
+    ctx.guard(topology_gate_rule, ctx, "C15.topology-gate")
+    # the slices the library itself hands out (target / placeholder fragments) stay linear-declared
+    for kid in ("K7", "K8", "K9"):
+        r.skip.update({kid + ".fragment", kid + ".slice-of-rotation", kid + ".fragment-plain-record"})
+    r.skip.add("K12.source-feature")
+    run_kernels(ctx, ["K7", "K8", "K9"], "C15")
     from ..rules_ast import record_instance_state_rule
     ctx.guard(record_instance_state_rule, ctx, "C15.no-derived-state", ["__contains__", "__getitem__", "__add__", "__radd__", "__len__"])
